@@ -32,7 +32,7 @@ def idstar_mc(wd, slice_=60):
             raise MachineryError(f"IDStarMachine: {v} violated\n" + r["out"][-2500:])
         tlc_ok(r, "IDStarMachine")
         return {"family": "A3o", "pair_slice": slice_, "generated": r["generated"], "distinct": r["distinct"], "invariants": IDS_INVS}
-    return cached(f"ids-mc-{slice_}", go)
+    return cached(f"ids-mc-{slice_}", go, module="IDStarMachine")
 
 
 def warm():
